@@ -7,6 +7,7 @@ import GabiModel.Proofs
 import GabiModel.Decode
 import GabiModel.Prover
 import GabiModel.Keyshare
+import GabiModel.Reuse
 namespace Gabi.Ops.Crypto
 open Lean Gabi Gabi.Wire Gabi.Ops
 
@@ -281,6 +282,14 @@ def handle : Handler := fun st op j =>
     pure (st, match r with
       | some (c, s) => s!"ok:{hexOfNat c} s={hexOfInt s}"
       | none => "err")
+  | "reuse-check" => some do
+    let vals ← (← asArr (← field j "values")).mapM fun v => do
+      pure ({ session := ← getNat v "session", proof := ← getNat v "proof", c := ← getInt v "c",
+              slot := ← getStr v "slot", s := ← getInt v "s", m := ← getInt v "m" } : TranscriptValue)
+    let els ← (← asArr (← field j "elements")).mapM fun e => do
+      pure (← getNat e "proof", ← getStr e "name", ← getInt e "x")
+    let n := reuseCount vals els
+    pure (st, if n = 0 then s!"fresh values={vals.length} elements={els.length}" else s!"reused {n}")
   | "verifyU" => some do
     let pk ← st.key (← getStr j "key")
     let ctx ← getInt j "context"
